@@ -70,7 +70,7 @@ Proof. split; repeat constructor; cbn; lia. Qed.
 Example T06_example :
   let p := pipe_init [3; 1] ex_legs (-1) true true in
   map (map_incoming_flat p) (zgrid [3; 3]) = map Some [3; 4; 0; 5; 6; 1; 7; 8; 2]
-  /\ map_outgoing_flat p 6 = Some [1; 1] /\ map snd (p_blocks p) = [[1; -1]; [2; 0]; [0; 1]].
+  /\ map_outgoing_flat p 6 = Some [1; 1] /\ map snd (p_blocks p) = [[1; -1]; [0; 0]; [2; 0]; [1; 1]].
 Proof. vm_compute. repeat split. Qed.
 
 Print Assumptions T06_flat_bijection.
